@@ -57,6 +57,16 @@ class SymStore(object):
     def __getitem__(self, i):
         return self.d.get(self._k(i), 0.0)
 
+    def read(self, i):
+        """what slot i holds after the method has run.  A slot written with a CONCRETE index outside the symbolic
+        loop body (`self.An[0] = …` hoisted out of `for n in range(1, N)`) is what index n holds on the paths where
+        n equals that index: one symbolic decision `n == c` per such slot (none in the code as it stands)."""
+        if isinstance(i, E):
+            for c in sorted(k for (kind, k) in self.d if kind == 'c'):
+                if i == c:
+                    return self.d[('c', c)]
+        return self[i]
+
 
 def _rod_stub(**concrete):
     cls = _rod.Rod1D
@@ -79,7 +89,16 @@ def _modes_symbolic(method, fsolve=None, **concrete):
         resid = []
         try:
             saved['range'] = _rod.__dict__.get('range', None)
-            _rod.range = lambda *a: [n]
+
+            def sym_range(*a):
+                # `range(Nsum)` -> the body once on the symbol n;  `range(1, Nsum)` -> the body once on n under the
+                # (symbolic) decision n != 0, which for a mode index is the same as 1 <= n: the rewrite of
+                # `for n in range(N): if n != 0: …` into `for n in range(1, N): …` gives the same decision tree
+                start = a[0] if len(a) >= 2 else 0
+                if isinstance(start, int) and start == 1:
+                    return [n] if (n != 0) else []
+                return [n]
+            _rod.range = sym_range
             if fsolve is not None:
                 saved['fsolve'] = _rod.fsolve
 
@@ -97,9 +116,9 @@ def _modes_symbolic(method, fsolve=None, **concrete):
             if 'fsolve' in saved:
                 _rod.fsolve = saved['fsolve']
         out = collections.OrderedDict()
-        out['kn'] = s.kn[n]
-        out['An'] = s.An[n]
-        out['Bn'] = s.Bn[n]
+        out['kn'] = s.kn.read(n)
+        out['An'] = s.An.read(n)
+        out['Bn'] = s.Bn.read(n)
         if fsolve is not None:
             out['residual'] = resid[0] if resid else 0.0
         return out
@@ -218,13 +237,26 @@ def _h1():
     return trace_solver('Hutchens1N3', H1, pvars=('r',), mode='new', concrete={'Nsum': 3}, extra_shims=PI_SHIM)
 
 
+def _mentions(e, name):
+    """does the symbolic expression (or 1-element object array) mention the symbol `name`?"""
+    if isinstance(e, np.ndarray):
+        return any(_mentions(v, name) for v in e.ravel())
+    if not isinstance(e, E):
+        return False
+    if e.op == 'sym':
+        return e.a[0] == name
+    return any(_mentions(v, name) for v in e.a)
+
+
 def _i0_atoms():
-    cnt = [0]
+    cnt = {'r': 0, 'b': 0}
 
     def i0(x):
-        i = cnt[0]
-        cnt[0] += 1
-        nm = 'I0%s%d' % ('r' if i % 2 == 0 else 'b', i // 2)
+        # which Bessel value this is follows from the ARGUMENT (lam_n * r mentions the coordinate r, lam_n * b does
+        # not), not from the order of the calls: hoisting `i0(lam * self.b)` above `i0(lam * r)` must not relabel
+        kind = 'r' if _mentions(x, 'r') else 'b'
+        nm = 'I0%s%d' % (kind, cnt[kind])
+        cnt[kind] += 1
         if isinstance(x, np.ndarray):
             out = np.empty(x.shape, dtype=object)
             out.fill(S(nm))
